@@ -35,7 +35,7 @@ def run(rep, tier):
     common.guarded(rep, "C08.5", c08.c08_5, rep, ix)
     from . import c15
     common.guarded(rep, "C15.2", c15.c15_2, rep, ix)       # a variable named like a parameter is still a variable
-    common.guarded(rep, "C15.1", c15.c15_1, rep, ix)       # the p-type filter drops exactly p<digits> names from the reported parameters
+    common.guarded(rep, "C15.1", c15.c15_1, rep, ix, True)       # the p-type filter drops exactly p<digits> names from the reported parameters
     c05.aliasing_lint(rep, ix)
     # the instantiated program is a deep copy (shared with C13)
     from . import c13
